@@ -9,6 +9,7 @@ evaluates `holds` on what the real code did and compares with the model's observ
 """
 import itertools
 import json
+import os
 from fractions import Fraction
 
 from . import core, kernels
@@ -57,6 +58,8 @@ def make_receiver(recipe):
             t = b.concat([a], axis="sample")
         elif op == "prefilter":
             t.filter(h[2], axis=h[1], inplace=True)
+        elif op == "prefilter_copy":
+            t = t.filter(h[2], axis=h[1], inplace=False)
         else:
             raise ValueError(op)
     return t
@@ -139,10 +142,55 @@ def container(form, ids, rng=None):
 
 
 def result_obs(fn):
+    return observe(fn)[0]
+
+
+def observe(fn):
+    """(observation, the returned table or None)"""
     try:
-        return {"ok": core.table_obs(fn())}
+        r = fn()
+        return {"ok": core.table_obs(r)}, r
     except Exception as e:  # the class is what is observed
-        return {"error": core.err_name(e)}
+        return {"error": core.err_name(e)}, None
+
+
+def lookups(tb, before, deep):
+    """what the table answers through its OWN by-ID lookups: index(id) of every ID it lists, data(id) of every
+    ID (deep), and the IDs of `before` it no longer lists but still reports as existing"""
+    out = {"stale": []}
+    if 0 in tb.shape:
+        deep = False        # the library refuses data(id) on a table with an empty axis
+    for ax, key in (("observation", "obs"), ("sample", "samp")):
+        ids = list(tb.ids(axis=ax))
+        idx, data = [], []
+        for i in ids:
+            try:
+                idx.append(int(tb.index(i, ax)))
+            except Exception:
+                idx.append(None)
+            if deep:
+                try:
+                    data.append([core.frac(x) for x in tb.data(i, axis=ax, dense=True)])
+                except Exception:
+                    data.append(None)
+        out[key + "_index"] = idx
+        out[key + "_data"] = data if deep else None
+        now = set(str(i) for i in ids)
+        for i in before[key]:
+            if i not in now:
+                try:
+                    if tb.exists(i, axis=ax):
+                        out["stale"].append(i)
+                except Exception:
+                    out["stale"].append(i)
+    return out
+
+
+def add_lookups(obs, before, result_table, receiver_table, deep):
+    if result_table is not None:
+        obs["result_lk"] = lookups(result_table, before, deep)
+    obs["after_lk"] = lookups(receiver_table, before, deep)
+    return obs
 
 
 # ----------------------------------------------------------------------------- one table-level request
@@ -168,7 +216,7 @@ def receiver(recipe, axis, reuse):
     return ent["t"], ent["before"], ent[axis]
 
 
-def run_filter(recipe, axis, keep, form, invert, inplace, mods, rng=None):
+def run_filter(recipe, axis, keep, form, invert, inplace, mods, rng=None, deep=False):
     """returns the driver request for one real Table.filter call"""
     t, before, layout = receiver(recipe, axis, reuse=not inplace)
     twin = t.copy() if keep["kind"] == "pred" else None
@@ -180,14 +228,15 @@ def run_filter(recipe, axis, keep, form, invert, inplace, mods, rng=None):
     else:
         arg = {"int": 5, "none": None, "callable-object": _Callable()}[keep.get("what", "int")]
     with kernels.use_kernels(mods):
-        res = result_obs(lambda: t.filter(arg, axis=axis, invert=invert, inplace=inplace))
+        res, rt = observe(lambda: t.filter(arg, axis=axis, invert=invert, inplace=inplace))
         after = core.table_obs(t)
         via = None
         if keep["kind"] == "pred":
             accepted = [c["id"] for c in log if c["ret"]]
             via = result_obs(lambda: twin.filter(accepted, axis=axis, invert=invert, inplace=False))
+        obs = add_lookups({"result": res, "after": after, "calls": log, "via_ids": via}, before, rt, t, deep)
     return {"op": "filter", "t": before, "layout": layout, "axis": axis, "keep": keep, "invert": invert,
-            "inplace": inplace, "obs": {"result": res, "after": after, "calls": log, "via_ids": via}}
+            "inplace": inplace, "obs": obs}
 
 
 class _Callable:
@@ -195,23 +244,68 @@ class _Callable:
         return True
 
 
-def run_remove_empty(recipe, axis, inplace, mods):
+def run_remove_empty(recipe, axis, inplace, mods, deep=True):
     t = make_receiver(recipe)
     before = core.table_obs(t)
     with kernels.use_kernels(mods):
-        res = result_obs(lambda: t.remove_empty(axis=axis, inplace=inplace))
+        res, rt = observe(lambda: t.remove_empty(axis=axis, inplace=inplace))
         after = core.table_obs(t)
-    return {"op": "remove_empty", "t": before, "axis": axis, "inplace": inplace,
-            "obs": {"result": res, "after": after}}
+        obs = add_lookups({"result": res, "after": after}, before, rt, t, deep)
+    return {"op": "remove_empty", "t": before, "axis": axis, "inplace": inplace, "obs": obs}
 
 
-def run_head(recipe, n, m, mods):
+def run_head(recipe, n, m, mods, deep=True):
     t = make_receiver(recipe)
     before = core.table_obs(t)
     with kernels.use_kernels(mods):
-        res = result_obs(lambda: t.head(n, m))
+        res, rt = observe(lambda: t.head(n, m))
         after = core.table_obs(t)
-    return {"op": "head", "t": before, "n": n, "m": m, "obs": {"result": res, "after": after}}
+        obs = add_lookups({"result": res, "after": after}, before, rt, t, deep)
+    return {"op": "head", "t": before, "n": n, "m": m, "obs": obs}
+
+
+def parse_tsv_table(text):
+    """the text `biom head` prints: '# Constructed from biom file', '#OTU ID<TAB>samples…', one line per observation"""
+    lines = [l for l in text.split("\n") if l.strip() != ""]
+    assert lines[0].startswith("# Constructed"), lines[:1]
+    header = lines[1].split("\t")
+    assert header[0] == "#OTU ID", header
+    samp = header[1:]
+    obs, rows = [], []
+    for l in lines[2:]:
+        f = l.split("\t")
+        obs.append(f[0])
+        rows.append([core.frac(float(x)) for x in f[1:]])
+    return {"obs": obs, "samp": samp, "rows": rows, "omd": None, "smd": None, "type": None}
+
+
+def run_cli_head(spec, fmt, n, m, tmpdir):
+    """`biom head -i FILE -n N -m M` on a file written in the given format (the command function of the tree
+    under test is called in-process); the truth is the content that was written"""
+    import h5py
+    import biom.cli.table_head as TH
+    t = core.build(spec, "dense")
+    path = os.path.join(tmpdir, "in.%s" % fmt)
+    out = os.path.join(tmpdir, "out.txt")
+    if fmt == "json":
+        open(path, "w").write(t.to_json("c08"))
+    elif fmt == "hdf5":
+        with h5py.File(path, "w") as f:
+            t.to_hdf5(f, "c08")
+    else:
+        open(path, "w").write(t.to_tsv())
+    before = core.spec_obs(spec)
+    try:
+        fn = getattr(TH.head, "callback", TH.head)
+        fn(path, out, n, m)
+        res = {"ok": parse_tsv_table(open(out).read())}
+    except Exception as e:
+        res = {"error": core.err_name(e)}
+    finally:
+        for f in (path, out):
+            if os.path.exists(f):
+                os.remove(f)
+    return {"op": "head", "t": before, "n": n, "m": m, "obs": {"result": res, "after": before}}
 
 
 # ----------------------------------------------------------------------------- kernel level
@@ -311,10 +405,13 @@ def judge(ctx, req, case, tags, r):
             ctx.count("filter:kept=%s" % ("all" if n1 == n0 else "none" if n1 == 0 else "some"))
 
 
-def do_filter(ctx, batch, impl, mods, recipe, axis, keep, form, invert, inplace, tags=(), rng=None):
+def do_filter(ctx, batch, impl, mods, recipe, axis, keep, form, invert, inplace, tags=(), rng=None, deep=None):
     case = {"kind": "filter", "recipe": recipe, "axis": axis, "keep": keep, "form": form, "invert": invert,
             "inplace": inplace, "impl": impl}
-    req = run_filter(recipe, axis, keep, form, invert, inplace, mods, rng)
+    ctx.journal(case)
+    if deep is None:
+        deep = ctx.evaluations % 8 == 0
+    req = run_filter(recipe, axis, keep, form, invert, inplace, mods, rng, deep=deep)
     lay = req["layout"]
     unsorted = any(lay["indices"][a:b] != sorted(lay["indices"][a:b])
                    for a, b in zip(lay["indptr"], lay["indptr"][1:]))
@@ -327,6 +424,7 @@ def do_filter(ctx, batch, impl, mods, recipe, axis, keep, form, invert, inplace,
 
 def do_remove_empty(ctx, batch, impl, mods, recipe, axis, inplace, tags=()):
     case = {"kind": "remove_empty", "recipe": recipe, "axis": axis, "inplace": inplace, "impl": impl}
+    ctx.journal(case)
     req = run_remove_empty(recipe, axis, inplace, mods)
     ctx.count("remove_empty:axis=%s" % axis)
     batch.add(req, case, ["impl=" + impl, "remove_empty", "axis=" + axis] + list(tags))
@@ -334,6 +432,7 @@ def do_remove_empty(ctx, batch, impl, mods, recipe, axis, inplace, tags=()):
 
 def do_head(ctx, batch, impl, mods, recipe, n, m, tags=()):
     case = {"kind": "head", "recipe": recipe, "n": n, "m": m, "impl": impl}
+    ctx.journal(case)
     req = run_head(recipe, n, m, mods)
     ctx.count("head:%s" % ("refused" if "error" in req["obs"]["result"] else "block"))
     batch.add(req, case, ["impl=" + impl, "head"] + list(tags))
@@ -342,6 +441,7 @@ def do_head(ctx, batch, impl, mods, recipe, n, m, tags=()):
 def do_kernel(ctx, batch, impl, mods, flat, ids, md, keep, form, invert, axis, tags=(), rng=None):
     case = {"kind": "kernel", "flat": flat, "ids": ids, "md": md, "keep": keep, "form": form, "invert": invert,
             "axis": axis, "impl": impl}
+    ctx.journal(case)
     req = run_kernel(flat, ids, md, keep, form, invert, axis, mods, rng)
     ctx.count("kernel:impl=%s" % impl)
     batch.add(req, case, ["impl=" + impl, "kernel", "form=" + form] + list(tags),
@@ -639,6 +739,129 @@ def kernel_cases(ctx, batch, impls, n_cases, fixed=True):
                       ("order=" + order, "zeros=%s" % zeros), rng=None)
 
 
+def do_cli_head(ctx, batch, spec, fmt, n, m, tmpdir, tags=()):
+    case = {"kind": "cli_head", "spec": spec, "fmt": fmt, "n": n, "m": m}
+    ctx.journal(case)
+    req = run_cli_head(spec, fmt, n, m, tmpdir)
+    ctx.count("cli-head:fmt=%s" % fmt)
+    batch.add(req, case, ["cli-head", "fmt=" + fmt] + list(tags))
+
+
+def wide_spec(rng, n, m, md_mode):
+    """long axes (>= 64 IDs): sparse small counts, numbered IDs"""
+    obs = ["O%d" % i for i in range(n)]
+    samp = ["S%d" % j for j in range(m)]
+    rows = [[float(rng.choice([1, 2, 3, 5])) if rng.random() < 0.12 else 0.0 for _ in range(m)] for _ in range(n)]
+    omd = [{"grp": "abc"[i % 3], "n": i} for i in range(n)] if md_mode in (1, 2) else None
+    smd = [{"grp": "cab"[j % 3]} for j in range(m)] if md_mode in (1, 3) else None
+    return {"obs": obs, "samp": samp, "rows": rows, "omd": omd, "smd": smd, "type": None}
+
+
+def wide_cases(ctx, batch, impls, n_cases):
+    """receivers with 64-150 IDs on an axis and SMALL ID collections given in an order that is not the axis
+    order (lists, tuples, arrays; sets and predicates as controls), both axes, inplace and not: size- or
+    container-dependent shortcuts must still keep the original relative order"""
+    rng = ctx.rng
+    shapes = [(4, 100), (100, 4), (3, 64), (64, 3), (2, 150), (128, 2), (5, 71), (90, 5)]
+    forms = ["list", "tuple", "array", "strarray", "list", "tuple", "array", "set", "pred", "frozenset"]
+    for c in range(n_cases):
+        n, m = shapes[c % len(shapes)]
+        if c % 40 == 39:
+            n, m = 70, 70
+        spec = wide_spec(rng, n, m, c % 4)
+        recipe = {"spec": spec, "route": ["dense", "csr", "perm_sort", "csc"][c % 4]}
+        long_axis = "sample" if m >= n else "observation"
+        axis = long_axis if c % 5 else ("observation" if long_axis == "sample" else "sample")
+        ids = spec["obs"] if axis == "observation" else spec["samp"]
+        k = rng.choice([1, 2, 2, 3, 5, 8]) if len(ids) >= 64 else rng.randint(1, len(ids))
+        if c % 9 == 8:
+            k = max(2, len(ids) // 2)
+        sub = rng.sample(ids, min(k, len(ids)))
+        order = c % 3
+        if order == 0:
+            sub = sorted(sub, key=ids.index, reverse=True)       # reverse axis order
+        elif order == 1 and len(sub) > 1:
+            sub = sub[1:] + sub[:1]                               # rotated
+        form = forms[c % len(forms)]
+        invert = c % 11 == 10
+        inplace = bool((c // 2) % 2)
+        impl, mods = impls[c % len(impls)]
+        keep = pred_desc({"name": "id_in", "ids": sub}) if form == "pred" else {"kind": "ids", "ids": sub}
+        ctx.count("wide:axis-len=%s" % (">=64" if len(ids) >= 64 else "<64"))
+        do_filter(ctx, batch, impl, mods, recipe, axis, keep, form, invert, inplace, ("wide", "order=%d" % order),
+                  deep=(n * m <= 600))
+
+
+def chain_cases(ctx, batch, impls, shard=(0, 1)):
+    """two-step histories: a filter that drops a NON-trailing ID (in place or not), then a second ID-based
+    operation on its result — filter by IDs / by predicate on the same and on the other axis, remove_empty,
+    head, and a request naming an ID the first step removed (must be refused, table unchanged)"""
+    grids = [
+        [[1, 0, 2, 0], [0, 0, 0, 0], [3, 4, 0, 5], [0, 6, 0, 7], [8, 0, 0, 9]],
+        [[0, 1, 2], [3, 0, 4], [0, 0, 0], [5, 6, 0]],
+    ]
+    k = 0
+    for gi, grid in enumerate(grids):
+        for md_mode in (0, 1):
+            spec = small_spec(grid, md_mode)
+            for axis1 in ("observation", "sample"):
+                ids1 = spec["obs"] if axis1 == "observation" else spec["samp"]
+                other = spec["samp"] if axis1 == "observation" else spec["obs"]
+                axis2o = "sample" if axis1 == "observation" else "observation"
+                for drop in ([ids1[0]], [ids1[1]], [ids1[0], ids1[2]]):
+                    kept1 = [i for i in ids1 if i not in drop]
+                    for step1 in ("prefilter", "prefilter_copy"):
+                        recipe = {"spec": spec, "route": ["dense", "csr", "perm_sort"][k % 3],
+                                  "hist": [[step1, axis1, kept1]]}
+                        tags = ("chain", "first=" + axis1, step1)
+                        for inplace in (False, True):
+                            k += 1
+                            if k % shard[1] != shard[0]:
+                                continue
+                            impl, mods = impls[k % len(impls)]
+                            F = lambda ax, keep, form, inv=False: do_filter(
+                                ctx, batch, impl, mods, recipe, ax, keep, form, inv, inplace, tags, deep=True)
+                            # same axis, by IDs: the last kept one; all but the first kept one; reversed list
+                            F(axis1, {"kind": "ids", "ids": [kept1[-1]]}, "list")
+                            F(axis1, {"kind": "ids", "ids": kept1[1:][::-1]}, "tuple")
+                            F(axis1, {"kind": "ids", "ids": [kept1[0]]}, "array", True)
+                            F(axis1, pred_desc({"name": "sum_gt", "k": "4"}), "pred")
+                            # an ID removed by the first step is unknown now
+                            F(axis1, {"kind": "ids", "ids": [kept1[-1], drop[0]]}, "list")
+                            F(axis1, {"kind": "ids", "ids": [drop[-1]]}, "set", True)
+                            # other axis
+                            F(axis2o, {"kind": "ids", "ids": [other[-1], other[0]]}, "list")
+                            F(axis2o, pred_desc({"name": "first_nz"}), "pred", True)
+                            for ax in ("observation", "sample", "whole"):
+                                do_remove_empty(ctx, batch, impl, mods, recipe, ax, inplace, tags)
+                            do_head(ctx, batch, impl, mods, recipe, 2, 2, tags)
+                            do_head(ctx, batch, impl, mods, recipe, len(grid), 1, tags)
+
+
+def cli_head_cases(ctx, batch):
+    """the `biom head` command on JSON / HDF5 / TSV files whose leading block holds an all-zero observation
+    and an all-zero sample: the command must print exactly the leading n x m block"""
+    import shutil
+    import tempfile
+    grids = [
+        [[1, 0, 2, 0, 0, 0, 1], [0, 0, 0, 0, 0, 9, 0], [3, 4, 0, 0, 0, 0, 0], [0, 0, 0, 0, 0, 0, 0],
+         [0, 5, 6, 0, 7, 0, 0], [8, 0, 0, 0, 0, 0, 2]],
+        [[0, 0, 3], [0, 0, 0], [0, 2, 1], [4, 0, 0]],
+    ]
+    os.makedirs("/tmp/C08", exist_ok=True)
+    tmpdir = tempfile.mkdtemp(dir="/tmp/C08")
+    try:
+        for grid in grids:
+            spec = small_spec(grid, 0)
+            n0, m0 = len(grid), len(grid[0])
+            for fmt in ("json", "hdf5", "tsv"):
+                for (n, m) in [(1, 1), (2, 2), (2, m0), (n0, 1), (4, 3), (n0 - 1, m0 - 1), (n0, m0), (n0 + 3, m0 + 2)]:
+                    do_cli_head(ctx, batch, spec, fmt, n, m, tmpdir)
+        batch.flush()
+    finally:
+        shutil.rmtree(tmpdir, ignore_errors=True)
+
+
 # ----------------------------------------------------------------------------- fixed corpus (repaired defects first)
 def corpus(ctx, batch, impls):
     # 7ace4ade: predicate filter after sort_order(['s3','s1','s2']) was handed [0,1,2]-like vectors
@@ -689,7 +912,7 @@ def run(ctx):
     if ctx.quick():
         pool = int(os.environ.get("C08_POOL", "4")) if wn == 1 else 0
         grids = grid_list(ctx, [(1, 1), (1, 2), (2, 1), (1, 3), (3, 1), (2, 2), (2, 3), (3, 2)]) + \
-            [(10000 + i, g) for i, g in grid_list(ctx, [(3, 3)], sample=max(1, 600 // wn))]
+            [(10000 + i, g) for i, g in grid_list(ctx, [(3, 3)], sample=max(1, 400 // wn))]
         grids = [(k, g) for k, g in grids if k >= 10000 or ctx.mine(k)]
         shards = Shards(ctx, batch, impls, grids, 2, pool)
         kernel_cases(ctx, batch, impls, 500 // wn, fixed=first)
@@ -697,6 +920,9 @@ def run(ctx):
         remove_empty_cases(ctx, batch, impls, [(1, 3), (2, 2), (2, 3), (3, 2)], 150 // wn)
         if first:
             head_cases(ctx, batch, impls)
+            cli_head_cases(ctx, batch)
+        chain_cases(ctx, batch, impls, ctx.worker)
+        wide_cases(ctx, batch, impls, max(40, 160 // wn))
         random_cases(ctx, batch, impls, 1500 // wn, 6)
     else:
         # ./check shards the thorough tier over WORKERS processes: grid number k belongs to worker k mod n
@@ -709,6 +935,9 @@ def run(ctx):
         remove_empty_cases(ctx, batch, impls, [(1, 3), (2, 2), (2, 3), (3, 2), (3, 3)], 4000 // wn)
         if first:
             head_cases(ctx, batch, impls)
+            cli_head_cases(ctx, batch)
+        chain_cases(ctx, batch, impls, ctx.worker)
+        wide_cases(ctx, batch, impls, 4000 // wn)
         random_cases(ctx, batch, impls, 24000 // wn, 8)
     batch.flush()
     shards.collect()
@@ -724,7 +953,7 @@ def replay(ctx, rec):
     case = rec["case"]
     impls = dict((n, m) for n, m in kernels.kernel_impls() if m is not None)
     impl = case.get("impl", "compiled")
-    mods = impls[impl]
+    mods = impls.get(impl)
     batch = Batch(ctx, size=1)
     k = case["kind"]
     if k == "filter":
@@ -734,6 +963,15 @@ def replay(ctx, rec):
         do_remove_empty(ctx, batch, impl, mods, case["recipe"], case["axis"], case["inplace"], ("replay",))
     elif k == "head":
         do_head(ctx, batch, impl, mods, case["recipe"], case["n"], case["m"], ("replay",))
+    elif k == "cli_head":
+        import shutil
+        import tempfile
+        os.makedirs("/tmp/C08", exist_ok=True)
+        tmpdir = tempfile.mkdtemp(dir="/tmp/C08")
+        try:
+            do_cli_head(ctx, batch, case["spec"], case["fmt"], case["n"], case["m"], tmpdir, ("replay",))
+        finally:
+            shutil.rmtree(tmpdir, ignore_errors=True)
     elif k == "kernel":
         do_kernel(ctx, batch, impl, mods, case["flat"], case["ids"], case["md"], case["keep"], case["form"],
                   case["invert"], case["axis"], ("replay",))
